@@ -52,6 +52,9 @@ type vhFinal struct {
 	valset string
 	nPH    int
 	prevoteA, precommitNil uint64
+	// the previous-commit proof the voting view carries (what a proposer at this node would put
+	// into the next header): round, validator-set hash, per committed hash the number of signatures
+	prevProof string
 }
 
 func (e *vhM) final(tag string) vhFinal {
@@ -71,6 +74,12 @@ func (e *vhM) final(tag string) vhFinal {
 	}
 	if p := v.PrecommitProofs[""]; p != nil {
 		f.precommitNil = bitsOf(p, e.n)
+	}
+	f.prevProof = string(rune('0'+v.PrevCommitProof.Round)) + "/" + v.PrevCommitProof.PubKeyHash
+	for _, h := range []string{"A", "B", "g", ""} {
+		if sigs, ok := v.PrevCommitProof.Proofs[h]; ok {
+			f.prevProof += "/" + h + ":" + string(rune('0'+len(sigs)))
+		}
 	}
 	return f
 }
@@ -214,4 +223,5 @@ func vhCrashRestart(tag string) {
 	verifrt.Assert(got.vh == want.vh && got.vr == want.vr && got.ch == want.ch && got.cr == want.cr, tag+":same-position-as-without-stop")
 	verifrt.Assert(got.valset == want.valset, tag+":same-validator-set-as-without-stop")
 	verifrt.Assert(got.prevoteA == want.prevoteA, tag+":same-votes-as-without-stop")
+	verifrt.Assert(got.prevProof == want.prevProof, tag+":same-previous-commit-proof-in-the-voting-view-as-without-stop")
 }
